@@ -20,7 +20,7 @@ from vkit.runner import Obligation
 from zeroconf import const
 from zeroconf._dns import DNSPointer, DNSQuestion, DNSService
 from zeroconf._exceptions import NamePartTooLongException
-from zeroconf._protocol.incoming import DNSIncoming
+from zeroconf._protocol.incoming import DNSIncoming, IncomingDecodeError
 from zeroconf._protocol.outgoing import DNSOutgoing
 from zeroconf._services.browser import _ServiceBrowserBase
 from zeroconf._services.info import AsyncServiceInfo
@@ -224,7 +224,11 @@ def make_echo(shape: Dict[str, Any]) -> Any:
             msg._name_cache = {}
             msg.source = None
             labels: List[Any] = []
-            msg._decode_labels_at_offset(0, labels, set())
+            try:
+                msg._decode_labels_at_offset(0, labels, set())
+            except IncomingDecodeError:
+                if not ctx.twin:
+                    return  # the decoder rejects the label: nothing is echoed
             if ctx.twin:
                 return
             out = DNSOutgoing(const._FLAGS_QR_RESPONSE, False, 7)
